@@ -1,7 +1,7 @@
 (* C20 — lemmas about Model/Sheet.v, part 8: which errors the converter can raise at all.  The KeyError /
    StopIteration places of convert.py (nodes_by_city[...], next(...) in fiber_link) are unreachable once the sanity
-   rules hold; what remains beside the eight rules is the IndexError of a FUSED site of degree < 2 (open finding)
-   and the arithmetic error of a PMD value on a fibre of length <= 0. *)
+   rules hold, and so is the IndexError of eqpt_connection_by_city (line sites have exactly two links); what remains
+   beside the ten rules is the arithmetic error of a PMD value on a fibre of length <= 0. *)
 From Coq Require Import QArith Lia.
 From Verif Require Import Prelude Model.Sheet Proofs.Sheet Proofs.Sheet2 Proofs.Sheet3 Proofs.Sheet7.
 Open Scope Z_scope.
@@ -126,32 +126,30 @@ Proof.
   split; [rewrite A; cbn; tauto|]. intros _. exists n. auto.
 Qed.
 
-(* every rejection of the model is one of the eight documented rules, or the IndexError of a FUSED site of
-   degree < 2, or the arithmetic error of a PMD on a non-positive length *)
+(* every rejection of the model is one of the ten sanity rules, or the arithmetic error of a PMD value on a
+   non-positive length; in particular the IndexError of eqpt_connection_by_city is unreachable *)
 Theorem convert_errors : forall w e, convert w = Err e ->
-  (exists r, In r rules /\ e = topo_err r) \/
-  (In e build_errors /\
-   (e = "IndexError:site_degree"%string ->
-    exists n, In n (nodes_of w) /\ n_type n = TFused /\ (length (links_of (n_city n) (links_of_w w)) < 2)%nat)).
+  (exists r, In r rules /\ e = topo_err r) \/ e = "ZeroDivisionError:pmd"%string \/ e = "ValueError:pmd"%string.
 Proof.
   intros w e H. rewrite convert_unfold in H.
   destruct (checks_cases (nodes_of w) (links_of_w w) (eqpts_of_w w)) as [[r [Hr He]]|[S [H1 H2]]];
     unfold nodes_of, links_of_w, eqpts_of_w in *.
   - rewrite He in H. cbn [bind] in H. inversion H. left. exists r. auto.
   - rewrite H1 in H. cbn [bind] in H. rewrite H2 in H. cbn [bind] in H. right.
-    destruct S as [S1 S2 S3 S4 S5 S6 S7 S8].
+    destruct S as [S0 S1 S2 S3 S4 S5 S6 S7 S8 S9].
     assert (AB := fun a b c => build_errors_spec _ _ _ _ e a b c H).
     destruct AB as [A B].
     + rewrite cities_correct. exact S1.
     + intros l Il. rewrite cities_correct. apply S2. exact Il.
     + intros q Iq. rewrite cities_correct. apply (S5 q Iq).
-    + split; [exact A|]. intros E. destruct (B E) as [m [Hm [T L]]].
+    + cbn [build_errors In] in A. destruct A as [A|[A|[A|[]]]]; [|left; auto|right; auto].
+      exfalso. destruct (B (eq_sym A)) as [m [Hm [T L]]].
       apply in_map_iff in Hm. destruct Hm as [n [Em In_]]. subst m. rewrite correct_type_city in L.
-      exists n. split; [exact In_|]. split; [|exact L].
-      unfold correct_type in T, L.
+      unfold correct_type in T.
       destruct (ntype_eqb (n_type n) TIla) eqn:Ti; cbn [andb] in T.
       * destruct (Nat.eqb (length (links_of (n_city n) (map mk_link (w_links w)))) 2) eqn:E2; cbn [negb] in T.
         -- apply Nat.eqb_eq in E2. lia.
         -- cbn in T. congruence.
-      * destruct (n_type n); [congruence | discriminate | reflexivity].
+      * destruct (n_type n) eqn:Tn; [congruence | discriminate |].
+        pose proof (S9 n In_ Tn). lia.
 Qed.
